@@ -49,7 +49,7 @@ def budget(tier):
 # plan generation (G-ops)
 # --------------------------------------------------------------------------------------------
 STR_POOL = ['', 'a', 'abc', 'hello world', 'aXbXc', 'é𝄞z', '  pad  ', 'a.b*c', 'x/y?z=1&w', 'AbC', '𝄞𝄞', 'x%41y', '50% a+b#c',
-            "q'r\"s", '[a-z]+$^|(x){2}\\d']
+            "q'r\"s", '[a-z]+$^|(x){2}\\d', 'a\x0012', '\x007b\x00', 'tab\there\nline', '\x7f\x1f-\r']
 SUBS = ['a', 'X', 'b', 'lo', 'z', ' ', 'é', '𝄞', 'abc', 'c']
 KEYS = ['k1', 'k2', 'k3', 'a', '10', '2', '0', '007', '-1', 'é']
 IDX = [-2, -1, 0, 0, 1, 1, 2, 2, 3, 4, 5, 6, 9, 0.5, 1.5, 2.0, 1.0]
